@@ -1,21 +1,29 @@
 #!/bin/sh
-# adopt_out.sh <worktree-id> : for every /tmp/sa/out/<worktree-id>/<id>/{patch.diff,demo.py,meta.json} confirm (demo OK on
-# the clean worktree, demo fails and pinned suite unchanged with the patch) and copy to /verif/seeded/<prop>-<id>/
-W=/tmp/sa/$1
-cd $W || exit 2
-git checkout -q -- . 
-for S in /tmp/sa/out/$1/*/; do
-  id=$(basename $S)
-  prop=$(python3 -c "import json;print(json.load(open('$S/meta.json'))['property'].lower())")
-  PYTHONPATH=$W/src PYTHONDONTWRITEBYTECODE=1 timeout 300 /venv/bin/python $S/demo.py >/tmp/sa/out/$1/$id.clean.log 2>&1; AE=$?
-  git apply $S/patch.diff || { echo "$id: patch does not apply"; continue; }
-  PYTHONPATH=$W/src PYTHONDONTWRITEBYTECODE=1 timeout 300 /venv/bin/python $S/demo.py >/tmp/sa/out/$1/$id.mut.log 2>&1; BE=$?
+# adopt_out.sh <worktree-id> <out-id> : for every /tmp/sa/out/<out-id>/<id>/{patch.diff,demo.py,meta.json} confirm (demo OK
+# on the clean worktree, demo fails and pinned suite unchanged with the patch) and copy to /verif/seeded/<prop>-<id>/
+W=/tmp/sa/$1; O=/tmp/sa/out/$2
+cd "$W" || exit 2
+git checkout -q -- .
+for S in "$O"/*/; do
+  id=$(basename "$S")
+  prop=$(python3 -c "import json,re,sys;print(re.search(r'C\d\d',json.load(open(sys.argv[1]))['property']).group(0).lower())" "$S/meta.json")
+  PYTHONPATH=$W/src PYTHONDONTWRITEBYTECODE=1 timeout 300 /venv/bin/python "$S/demo.py" >"$O/$id.clean.log" 2>&1; AE=$?
+  git apply "$S/patch.diff" || { echo "$id: patch does not apply"; continue; }
+  PYTHONPATH=$W/src PYTHONDONTWRITEBYTECODE=1 timeout 300 /venv/bin/python "$S/demo.py" >"$O/$id.mut.log" 2>&1; BE=$?
   MUT=$(PYTHONPATH=$W/src PYTHONDONTWRITEBYTECODE=1 timeout 600 /venv/bin/python -m pytest -q -p no:cacheprovider --timeout=60 --continue-on-collection-errors 2>&1 | tail -1)
-  git apply -R $S/patch.diff; git checkout -q -- .
-  echo "$prop-$id: demo clean exit $AE, with change exit $BE ($(tail -1 /tmp/sa/out/$1/$id.mut.log | cut -c1-120)); suite with change: $MUT"
+  git apply -R "$S/patch.diff"; git checkout -q -- .
+  echo "$prop-$id: demo clean exit $AE, with change exit $BE ($(tail -1 "$O/$id.mut.log" | cut -c1-120)); suite with change: $MUT"
   case "$AE/$BE/$MUT" in
     0/1/*"9 failed, 193 passed, 16 xfailed, 194 errors"*)
-      D=/verif/seeded/$prop-$id; mkdir -p $D; cp $S/patch.diff $S/demo.py $S/meta.json $D/; echo "  adopted -> $D";;
+      D=/verif/seeded/$prop-$id; mkdir -p "$D"; cp "$S/patch.diff" "$S/demo.py" "$S/meta.json" "$D/"
+      python3 - "$D/meta.json" "$prop" <<'PY'
+import json,sys
+p,prop=sys.argv[1],sys.argv[2].upper()
+m=json.load(open(p))
+if m.get('property')!=prop: m['property_text_as_given']=m['property']; m['property']=prop
+json.dump(m,open(p,'w'),indent=1)
+PY
+      echo "  adopted -> $D";;
     *) echo "  NOT adopted";;
   esac
 done
